@@ -154,7 +154,7 @@ func checkLayouts(p *Prog, r *Report, rule string) {
 
 func c01(c *Ctx) {
 	p, r := c.K1(), c.R
-	r.Expl = "Structural clauses the mocking mechanism rests on (the ABI behaviour itself is a run-time fact and is not decided): the word embedded in the entry jump is the func value's data word obtained from the reflect.Value of the replacement (not its code pointer); on every successful path of the installer the patch object holding the replacement is stored in the package-level table under the patched address (the only GC root for a pointer hidden in machine code), and entries are deleted only after their bytes were restored; the patched address is the target's entry (Value.Pointer, the generic-wrapper scan result, or a symbol address) with no arithmetic; every struct that is cast over a runtime object agrees with the toolchain's real type on the offsets and sizes of the fields it touches (amd64 and arm64); the entry-jump template clobbers only the closure-context register (shared with C15's abstract interpretation)."
+	r.Expl = "Structural clauses the mocking mechanism rests on (the ABI behaviour itself is a run-time fact and is not decided): the word embedded in the entry jump is the func value's data word obtained from the reflect.Value of the replacement (not its code pointer); on every successful path of the installer the patch object holding the replacement is stored in the package-level table under the patched address (the only GC root for a pointer hidden in machine code), and entries are deleted only after their bytes were restored; the patched address is the target's entry (Value.Pointer, the generic-wrapper scan result, or a symbol address) with no arithmetic; every struct that is cast over a runtime object agrees with the toolchain's real type on the offsets and sizes of the fields it touches (amd64 and arm64); the entry-jump template clobbers only the closure-context register (shared with C15's abstract interpretation). (R6) a guard that a mocker records is switched on before the mocker returns, and the wrapper around a patch guard forwards Apply to the patch."
 	r.RuleText = "one obligation per (rule, call site / store / mirror field)"
 	r.Floor("C01.R2", 2)
 	r.Floor("C01.R3", 2)
